@@ -5,25 +5,7 @@ From Dae Require Import C06_Spec C06_Model C06_Statements.
 Import ListNotations.
 Open Scope N_scope.
 
-(* ------------------------------------------------------------------ witnesses *)
-Definition oob_witness : bytes :=
-  enc_handshake {| h_minor := 3; h_random := repeat 7 32%nat; h_session := []; h_suites := [19; 1];
-                   h_compress := [0]; h_exts := [ExtOther 21 [0; 0; 0]; ExtOther 0 [65]] |}.
-
-Lemma C06_tls_no_oob_refuted_proof : C06_tls_no_oob_refuted_stmt.
-Proof. exists oob_witness. vm_compute. reflexivity. Qed.
-
-Definition stale_witness : list rd :=
-  [ {| rd_window := 4096; rd_data := [22; 3; 1; 0; 100; 1; 0]; rd_status := RsOk |};
-    {| rd_window := 4089; rd_data := []; rd_status := RsTimeout |};
-    {| rd_window := 32768; rd_data := [1; 2]; rd_status := RsOk |};
-    {| rd_window := 32768; rd_data := []; rd_status := RsEof |} ].
-
-Lemma C06_usable_after_timeout_refuted_proof : C06_usable_after_timeout_refuted_stmt.
-Proof.
-  exists stale_witness, 32768. vm_compute. repeat split; try discriminate.
-Qed.
-
+(* ------------------------------------------------------------------ non-vacuity *)
 Lemma C06_nonvacuous_proof : C06_nonvacuous_stmt.
 Proof. vm_compute. repeat split; reflexivity. Qed.
 
@@ -62,10 +44,10 @@ Qed.
 Lemma sniff_loop_dataerr :
   forall script st r st' rest,
     sniff_tcp_loop script st = (r, st', rest) ->
-    r <> TimedOut -> r <> IoError -> s_dataerr st' = None.
+    r <> IoError -> s_dataerr st' = None.
 Proof.
-  induction script as [|e script IH]; intros st r st' rest Hrun H1 H2.
-  - cbn in Hrun. inversion Hrun; subst. congruence.
+  induction script as [|e script IH]; intros st r st' rest Hrun H2.
+  - cbn in Hrun. inversion Hrun; subst. reflexivity.
   - cbn [sniff_tcp_loop] in Hrun.
     destruct (rd_status e).
     1,2:
@@ -74,17 +56,20 @@ Proof.
        | destruct (sniff_group_tcp (s_buf st ++ rd_data e) (zeros (blen (s_buf st) + rd_window e - blen (s_buf st ++ rd_data e))));
          try (inversion Hrun; subst; reflexivity);
          eapply IH; eauto ]).
-    + inversion Hrun; subst. congruence.
+    + inversion Hrun; subst. reflexivity.
     + inversion Hrun; subst. congruence.
 Qed.
 
-Lemma C06_usable_after_timeout_partial_proof : C06_usable_after_timeout_partial_stmt.
+Lemma C06_usable_after_timeout_proof : C06_usable_after_timeout_stmt.
 Proof.
-  unfold C06_usable_after_timeout_partial_stmt. intros script p. unfold sniff_tcp.
+  unfold C06_usable_after_timeout_stmt. intros script p. unfold sniff_tcp.
   destruct (sniff_tcp_loop script new_stream) as [[r st] rest] eqn:Hrun.
-  intros H1 H2. unfold relay_read_all, relay_prefix_copy.
-  rewrite (sniff_loop_dataerr _ _ _ _ _ Hrun H1 H2). reflexivity.
+  intros H2. unfold relay_read_all, relay_prefix_copy.
+  rewrite (sniff_loop_dataerr _ _ _ _ _ Hrun H2). reflexivity.
 Qed.
+
+Lemma C06_usable_after_timeout_nonvacuous_proof : C06_usable_after_timeout_nonvacuous_stmt.
+Proof. vm_compute. split; reflexivity. Qed.
 
 Lemma C06_udp_data_exact_proof : C06_udp_data_exact_stmt.
 Proof.
